@@ -185,3 +185,35 @@ pub fn c01c_escaped_char_2() { escaped_char::<2>() }
 #[kani::unwind(10)]
 #[kani::stub(alloc::fmt::format, fmt_stub)]
 pub fn c01c_escaped_char_0() { escaped_char::<0>() }
+
+// ---- C01d: character helpers the parsers and the serializer rely on (no panic inside their preconditions) ----
+
+use grass_compiler::verif::{as_hex, hex_char_for, is_name, is_name_start, opposite_bracket};
+
+#[kani::proof]
+#[kani::unwind(8)]
+pub fn c01d_char_helpers() {
+    let n: u32 = kani::any();
+    kani::assume(n < 16);
+    let h = hex_char_for(n);
+    assert!(h.is_ascii_hexdigit() && !h.is_ascii_uppercase(), "C01d: hex_char_for must yield a lowercase hex digit");
+    assert!(as_hex(h) == n, "C01d: as_hex(hex_char_for(n)) != n");
+    // ASCII only: `char::is_alphabetic` on non-ASCII input walks the Unicode tables (1500-step search loops)
+    let c: char = kani::any();
+    kani::assume((c as u32) < 0x80);
+    if c.is_ascii_hexdigit() {
+        assert!(Some(as_hex(c)) == c.to_digit(16), "C01d: as_hex disagrees with the digit's value");
+        kani::cover!(c.is_ascii_uppercase(), "upper_hex");
+    }
+    if (c as u32) < 0x80 {
+        let want_start = c == '_' || c.is_ascii_alphabetic();
+        assert!(is_name_start(c) == want_start, "C01d: ASCII name-start class differs from CSS (letters and underscore)");
+        assert!(is_name(c) == (want_start || c.is_ascii_digit() || c == '-'), "C01d: ASCII name class differs from CSS (name-start, digits, hyphen)");
+    }
+    let b: u8 = kani::any();
+    kani::assume(b < 6);
+    let br = ['(', '{', '[', ')', '}', ']'][b as usize];
+    let ob = opposite_bracket(br);
+    assert!(opposite_bracket(ob) == br && ob != br, "C01d: opposite_bracket is not an involution on brackets");
+    kani::cover!(true, "end");
+}
